@@ -1,0 +1,76 @@
+#![allow(missing_docs)]
+//! Verification hook (compiled only with `--cfg html5ever_verif`): a read-only
+//! dump of the complete XML tokenizer state, destructured exhaustively.
+use super::{TokenSink, XmlTokenizer};
+
+#[derive(Debug, Clone, PartialEq, Eq, Hash)]
+pub struct VerifXmlTok {
+    pub state: String,
+    pub reconsume: bool,
+    pub current_char: char,
+    pub ignore_lf: bool,
+    pub discard_bom: bool,
+    pub at_eof: bool,
+    pub char_ref: Option<String>,
+    pub temp_buf: String,
+    pub tag_kind: String,
+    pub tag_name: String,
+    pub attrs: Vec<(String, String)>,
+    pub attr_name: String,
+    pub attr_value: String,
+    pub doctype: String,
+    pub comment: String,
+    pub pi_target: String,
+    pub pi_data: String,
+}
+
+impl<Sink: TokenSink> XmlTokenizer<Sink> {
+    pub fn verif_dump(&self) -> VerifXmlTok {
+        let XmlTokenizer {
+            opts: _,
+            sink: _,
+            state,
+            at_eof,
+            char_ref_tokenizer,
+            current_char,
+            reconsume,
+            ignore_lf,
+            discard_bom,
+            temp_buf,
+            current_tag_kind,
+            current_tag_name,
+            current_tag_attrs,
+            current_attr_name,
+            current_attr_value,
+            current_doctype,
+            current_comment,
+            current_pi_target,
+            current_pi_data,
+            state_profile: _,
+            time_in_sink: _,
+        } = self;
+        VerifXmlTok {
+            state: format!("{:?}", state.get()),
+            reconsume: reconsume.get(),
+            current_char: current_char.get(),
+            ignore_lf: ignore_lf.get(),
+            discard_bom: discard_bom.get(),
+            at_eof: at_eof.get(),
+            char_ref: char_ref_tokenizer.borrow().as_ref().map(|c| format!("{c:?}")),
+            temp_buf: temp_buf.borrow().to_string(),
+            tag_kind: format!("{:?}", current_tag_kind.get()),
+            tag_name: current_tag_name.borrow().to_string(),
+            attrs: current_tag_attrs
+                .borrow()
+                .iter()
+                .map(|a| (format!("{:?}", a.name), a.value.to_string()))
+                .collect(),
+            attr_name: current_attr_name.borrow().to_string(),
+            attr_value: current_attr_value.borrow().to_string(),
+            doctype: format!("{:?}", current_doctype.borrow()),
+            comment: current_comment.borrow().to_string(),
+            pi_target: current_pi_target.borrow().to_string(),
+            pi_data: current_pi_data.borrow().to_string(),
+        }
+    }
+}
